@@ -10,6 +10,11 @@ case args: workers=<N> peers0=<n|f> ncfg=<m> c0=<cfg> … c<m-1>=<cfg>
 ops: get <w> <enc env> | peers <n> | peersfail | setcfg <j> | clear | wreload <w> | cget <enc env> <k>
      cget = k fresh workers at once; the model takes one linearisation: for i < k: wreload (100+i); get (100+i) env
      obs of cget: r=<slot ids>/<slot ids>/… (one list per worker) p=… c=… g=…
+     peerset <n> | peersetfail | peercb : membership change and its callback as separate steps
+     reload <w> <enc env> : real reloadConfigs; `ext order = a,b,c` is the observed order of clear / stress /
+       signal; the model replays exactly that order: clear = .clear, stress = [wreload w if signalled] get w env,
+       signal = every worker has a pending signal; afterwards every signalled worker does wreload, then all get env.
+       obs: m=<w's slot ids mid-reload> r=<worker 0>/<worker 1>/… p=… c=… g=…
 obs: [s=<ids> k=<keys>] p=<peerCount> c=<id/cfg,…> g=<id:goal,…>       (see harness/cmd/samplerreg/main.go)
 -/
 open Refinery Refinery.Model.SamplerRegistry Oracle
@@ -121,6 +126,17 @@ def slotStr (st : St) (slots : List Slot) : String :=
       | none => "x"
   s!"s={joinC s} k={joinC k}"
 
+/-- `ext order = clear,stress,signal` -/
+def reloadOrder (exts : List (List String)) : Option (List String) :=
+  exts.findSome? fun e => match e with
+    | ["order", "=", x] => some (x.splitOn ",")
+    | _ => none
+
+def idList (st : St) (w : Nat) (env : Str) : String :=
+  match AList.get st.caches (w, env) with
+  | some ent => joinC (ent.slots.map fun sl => match sl.id with | some id => toString id | none => "-")
+  | none => "nil"
+
 structure OSt where
   cfgs : List Config
   workers : Nat
@@ -131,7 +147,7 @@ def oInit (args : List String) : OSt :=
   { cfgs, workers := ((kv args "workers").getD "0").toNat?.getD 0,
     st := init (cfgs.headD []) (parseActual args) }
 
-def oStep (o : OSt) (op : List String) (_ : List (List String)) : OSt × Option String :=
+def oStep (o : OSt) (op : List String) (exts : List (List String)) : OSt × Option String :=
   let go (x : Op) : OSt × Option String :=
     let st' := step o.cfgs o.st x
     ({ o with st := st' }, some (tailStr st'))
@@ -165,6 +181,32 @@ def oStep (o : OSt) (op : List String) (_ : List (List String)) : OSt × Option 
           | none => "nil"
         ({ o with st := st' }, some ("r=" ++ "/".intercalate lists ++ " " ++ tailStr st'))
     | none => (o, some "bad-op")
+  | ["peerset", n] => match n.toNat? with | some n => go (.peerset n) | none => (o, some "bad-op")
+  | ["peersetfail"] => go .peersetFail
+  | ["peercb"] => go .peercb
+  | ["reload", w, e] =>
+    match w.toNat?, reloadOrder exts with
+    | some w, some order =>
+      if w ≥ o.workers then (o, some "bad-op") else
+      let env := dec e
+      match lookupCfg o.st.cfg env with
+      | none => (o, some "exit")
+      | some _ =>
+        let (st1, sig, consumed, mid) := order.foldl (fun (acc : St × Bool × Bool × String) stage =>
+          let (st, sig, consumed, mid) := acc
+          if stage == "clear" then (step o.cfgs st .clear, sig, consumed, mid)
+          else if stage == "signal" then (st, true, consumed, mid)
+          else if stage == "stress" then
+            let st := if sig then step o.cfgs st (.wreload w) else st
+            let st := step o.cfgs st (.get w env)
+            (st, sig, sig, idList st w env)
+          else (st, sig, consumed, mid)) (o.st, false, false, "nil")
+        let st2 := (List.range o.workers).foldl (fun st i =>
+          if sig && !(i == w && consumed) then step o.cfgs st (.wreload i) else st) st1
+        let st3 := (List.range o.workers).foldl (fun st i => step o.cfgs st (.get i env)) st2
+        let lists := (List.range o.workers).map fun i => idList st3 i env
+        ({ o with st := st3 }, some (s!"m={mid} r=" ++ "/".intercalate lists ++ " " ++ tailStr st3))
+    | _, _ => (o, some "bad-op")
   | ["peers", n] => match n.toNat? with | some n => go (.peers n) | none => (o, some "bad-op")
   | ["peersfail"] => go .peersFail
   | ["setcfg", j] => match j.toNat? with
@@ -189,14 +231,18 @@ structure MSlot where
 structure MSt where
   cfgs : List Config
   cfg : Config
-  peers : Nat                          -- the property's "current number of peers"
+  workers : Nat
+  peers : Option Nat                   -- the property's "current number of peers"; none = cannot be told from the ops
+  src : Option Nat                     -- what the peer source answers now
+  dirty : Bool := false                -- the source changed and the callback has not run yet
   cached : List (Nat × Str) := []      -- which (worker, key) pairs hold a cached sampler (from the ops alone)
   seen : List MSlot := []              -- sampler slots built since the last ClearDynsamplers, with the observed instance
   oldIds : List Nat := []              -- instances observed before the last ClearDynsamplers
 
 def mInit (args : List String) : MSt :=
   let cfgs := parseCfgs args
-  { cfgs, cfg := cfgs.headD [], peers := refreshCount (parseActual args) 1 }
+  { cfgs, cfg := cfgs.headD [], workers := ((kv args "workers").getD "0").toNat?.getD 0,
+    peers := some (refreshCount (parseActual args) 1), src := parseActual args }
 
 def parseIds (s : String) (nslots : Nat) : List (Option Nat) :=
   if s == "-" && nslots == 0 then [] else (s.splitOn ",").map String.toNat?
@@ -256,12 +302,14 @@ def c12Check (m : MSt) (new : List MSlot) : List Fail := Id.run do
 /-- C13 check of every throughput slot built since the last clear against the goals in force -/
 def c13Check (m : MSt) (goals : List (Nat × Int)) : List Fail := Id.run do
   let mut fs : List Fail := []
+  -- between a membership change and its callback, and after a callback that could not tell, nothing is required
+  let some peers := (if m.dirty then none else m.peers) | return []
   for a in m.seen do
     if a.d.kind.isThroughput then
       match goals.find? (·.1 == a.id) with
       | none => pure ()
       | some (_, g) =>
-        let want := if a.d.useCluster then newGoal a.d.rate m.peers else creationGoal a.d.rate
+        let want := if a.d.useCluster then newGoal a.d.rate peers else creationGoal a.d.rate
         if g != want then
           let partners := m.seen.filter fun b => b.id == a.id && !sameCfg a b
           let sig :=
@@ -269,10 +317,36 @@ def c13Check (m : MSt) (goals : List (Nat × Int)) : List Fail := Id.run do
             else if !a.d.useCluster && partners.any (·.d.useCluster) then "C13:fixed-goal-scaled:shares-with-useclustersize"
             else s!"C13:goal-wrong:useclustersize={a.d.useCluster}"
           fs := addFail fs (mk "C13" sig
-            s!"{defStr a.d} (prefix {enc a.pfx}, instance {a.id}) has goal {g} with {m.peers} peers, expected {want}")
+            s!"{defStr a.d} (prefix {enc a.pfx}, instance {a.id}) has goal {g} with {peers} peers, expected {want}")
   return fs
 
-def mStep (m : MSt) (op : List String) (_ : List (List String)) (obs : Option String) : MSt × List Fail :=
+/-- a worker asks for its sampler (cache protocol from the ops alone); `s` = observed slot ids.
+C12 checks only: the caller runs the C13 check once the operation is over. -/
+def monGet (m : MSt) (w : Nat) (env : Str) (e : String) (s : String) : MSt × List Fail :=
+  if m.cached.contains (w, env) then (m, [])
+  else
+    let defs := slotsOf m.cfg env
+    let down := match lookupCfg m.cfg env with | some (.rules _) => true | _ => false
+    let ids := parseIds s defs.length
+    if defs.length != ids.length then
+      (m, [mk "C12" "C12:slot-count" s!"sampler for {e} has {ids.length} slots, its configuration {defs.length}"])
+    else
+      let new : List MSlot := (defs.zip ids).filterMap fun ((p, d), i) =>
+        i.map fun id => { pfx := p, d, id, env, down, worker := w }
+      ({ m with cached := (w, env) :: m.cached, seen := m.seen ++ new }, c12Check m new)
+
+def monClear (m : MSt) : MSt := { m with seen := [], oldIds := m.oldIds ++ m.seen.map (·.id) }
+def monWreload (m : MSt) (w : Nat) : MSt := { m with cached := m.cached.filter (·.1 != w) }
+
+/-- the callback runs: a good answer is the current number of peers; a bad one leaves the count as
+it was, which the ops alone determine only if nothing changed since the last callback -/
+def monCallback (m : MSt) : MSt :=
+  match m.src with
+  | some n => if n > 0 then { m with peers := some n, dirty := false }
+              else { m with peers := if m.dirty then none else m.peers, dirty := false }
+  | none => { m with peers := if m.dirty then none else m.peers, dirty := false }
+
+def mStep (m : MSt) (op : List String) (exts : List (List String)) (obs : Option String) : MSt × List Fail :=
   let o := obs.getD ""
   if o.startsWith "panic" then
     (m, [{ prop := "C12", sig := "C12:panic", what := o }, { prop := "C13", sig := "C13:panic", what := o }])
@@ -283,20 +357,8 @@ def mStep (m : MSt) (op : List String) (_ : List (List String)) (obs : Option St
   | ["get", w, e] =>
     match w.toNat?, kv toks "s" with
     | some w, some s =>
-      let env := dec e
-      if m.cached.contains (w, env) then (m, c13Check m goals)
-      else
-        let defs := slotsOf m.cfg env
-        let down := match lookupCfg m.cfg env with | some (.rules _) => true | _ => false
-        let ids := parseIds s defs.length
-        if defs.length != ids.length then
-          (m, [{ prop := "C12", sig := "C12:slot-count", what := s!"sampler for {e} has {ids.length} slots, its configuration {defs.length}" }])
-        else
-          let new : List MSlot := (defs.zip ids).filterMap fun ((p, d), i) =>
-            i.map fun id => { pfx := p, d, id, env, down, worker := w }
-          let f12 := c12Check m new
-          let m' := { m with cached := (w, env) :: m.cached, seen := m.seen ++ new }
-          (m', f12 ++ c13Check m' goals)
+      let (m', f) := monGet m w (dec e) e s
+      (m', f ++ c13Check m' goals)
     | _, _ => (m, [])
   | ["cget", e, _] =>
     match kv toks "r" with
@@ -318,19 +380,51 @@ def mStep (m : MSt) (op : List String) (_ : List (List String)) (obs : Option St
         let m' := { m with seen := m.seen ++ new }
         (m', f1 ++ f12 ++ c13Check m' goals)
     | none => (m, [])
+  | ["reload", w, e] =>
+    match w.toNat?, kv toks "m", kv toks "r", reloadOrder exts with
+    | some w, some mid, some r, some order =>
+      let env := dec e
+      let lists := r.splitOn "/"
+      let (m1, sig, consumed, f1) := order.foldl (fun (acc : MSt × Bool × Bool × List Fail) stage =>
+        let (m, sig, consumed, fs) := acc
+        if stage == "clear" then (monClear m, sig, consumed, fs)
+        else if stage == "signal" then (m, true, consumed, fs)
+        else if stage == "stress" then
+          let m := if sig then monWreload m w else m
+          let (m, f) := monGet m w env e mid
+          (m, sig, sig, fs ++ f)
+        else (m, sig, consumed, fs)) (m, false, false, [])
+      let m2 := (List.range m.workers).foldl (fun m i =>
+        if sig && !(i == w && consumed) then monWreload m i else m) m1
+      -- the property after a completed reload: every worker is back on the same instances
+      let first := lists.headD ""
+      if lists.all (· == first) then
+        let (m3, f3) := ((List.range m.workers).zip lists).foldl (fun (acc : MSt × List Fail) (il : Nat × String) =>
+          let (m', f) := monGet acc.1 il.1 env e il.2
+          (m', acc.2 ++ f)) (m2, f1)
+        (m3, f3 ++ c13Check m3 goals)
+      else
+        let m3 := { m2 with cached := ((List.range m.workers).map fun i => (i, env)) ++ m2.cached }
+        (m3, f1 ++ [mk "C12" "C12:workers-not-sharing:after-reload"
+          s!"after reloadConfigs (observed order {",".intercalate order}) and every worker having handled its reload signal, the workers' samplers for {e} are backed by different instances: {r}"])
+    | _, _, _, _ => (m, [])
   | ["peers", n] =>
-    let n := n.toNat?.getD 0
-    let m' := if n > 0 then { m with peers := n } else m
+    let m' := monCallback { m with src := some (n.toNat?.getD 0) }
     (m', c13Check m' goals)
-  | ["peersfail"] => (m, c13Check m goals)
+  | ["peersfail"] =>
+    let m' := monCallback { m with src := none }
+    (m', c13Check m' goals)
+  | ["peerset", n] => ({ m with src := some (n.toNat?.getD 0), dirty := true }, [])
+  | ["peersetfail"] => ({ m with src := none, dirty := true }, [])
+  | ["peercb"] =>
+    let m' := monCallback m
+    (m', c13Check m' goals)
   | ["setcfg", j] =>
     let m' := match m.cfgs[j.toNat?.getD 0]? with | some c => { m with cfg := c } | none => m
     (m', c13Check m' goals)
-  | ["clear"] =>
-    ({ m with seen := [], oldIds := m.oldIds ++ m.seen.map (·.id) }, [])
+  | ["clear"] => (monClear m, [])
   | ["wreload", w] =>
-    let w := w.toNat?.getD 0
-    let m' := { m with cached := m.cached.filter (·.1 != w) }
+    let m' := monWreload m (w.toNat?.getD 0)
     (m', c13Check m' goals)
   | _ => (m, [])
 
